@@ -75,13 +75,9 @@ Proof.
   apply in_seq. lia.
 Qed.
 
-(* Stated in the unfolded [forallb f l] form on purpose: every later use must match these statements
-   syntactically.  If the unifier or the kernel has to convert between a folded and an unfolded form of a
-   [forallb] over the 8192-element list it starts unrolling the list and does not come back. *)
-Lemma all_plugins_subscription :
-  forallb (subscription_exact_t handler_events) (plugins_upto num_plugins) = true.
-Proof. vm_cast_no_check (@eq_refl bool true). Qed.
-
+(* Sweeps are stated in the unfolded [forallb f l] form on purpose: every later use must match these
+   statements syntactically.  If the unifier or the kernel has to convert between a folded and an unfolded
+   form of a [forallb] over the 8192-element list it starts unrolling the list and does not come back. *)
 Lemma all_plugins_handlers : forallb handlers_exact (plugins_upto num_plugins) = true.
 Proof. vm_cast_no_check (@eq_refl bool true). Qed.
 
@@ -89,24 +85,6 @@ Lemma forallb_in {A} (f : A -> bool) l : forallb f l = true -> forall x, In x l 
 Proof. intros H. apply forallb_forall. exact H. Qed.
 
 (* interface lemmas: the statements have the final shape, nothing is unfolded in a hypothesis *)
-Lemma subscription_exact_p p : (p < num_plugins)%N -> subscription_exact_t handler_events p = true.
-Proof.
-  intros Hp.
-  exact (forallb_in (subscription_exact_t handler_events) (plugins_upto num_plugins)
-                    all_plugins_subscription p (in_plugins_upto num_plugins p Hp)).
-Qed.
-
-Lemma subscription_exact_t_elim he p :
-  subscription_exact_t he p = true -> forall e, In e event_bits -> sub_ok he (stub_events p) p e = true.
-Proof. unfold subscription_exact_t. intros H. apply forallb_forall. exact H. Qed.
-
-Lemma sub_ok_p p e :
-  (p < num_plugins)%N -> (1 <= e <= 31)%Z -> sub_ok handler_events (stub_events p) p e = true.
-Proof.
-  intros Hp He.
-  exact (subscription_exact_t_elim handler_events p (subscription_exact_p p Hp) e (in_event_bits e He)).
-Qed.
-
 Lemma handlers_exact_p p : (p < num_plugins)%N -> handlers_exact p = true.
 Proof.
   intros Hp.
@@ -130,6 +108,70 @@ Proof. intros Hp. exact (handlers_exact_elim p (handlers_exact_p p Hp) h). Qed.
 (* all thirteen events are distinct and valid (regenerated numbers) *)
 Lemma proto_events_valid : forallb (fun h => (1 <=? proto_event h)%Z && (proto_event h <=? 13)%Z && is_set valid_events (proto_event h)) all_handlers = true.
 Proof. vm_compute. reflexivity. Qed.
+
+(* setupHandlers computes the reference mask, for every plugin type (complete sweep) *)
+Lemma all_plugins_ref_mask : forallb (ref_ok handler_events) (plugins_upto num_plugins) = true.
+Proof. vm_cast_no_check (@eq_refl bool true). Qed.
+
+Lemma ref_ok_elim he p : ref_ok he p = true -> stub_events p = ref_mask_t he p /\ new_ok p = ref_new_ok p.
+Proof.
+  unfold ref_ok. intros A. apply andb_true_iff in A. destruct A as [A B].
+  split; [apply Z.eqb_eq; exact A|apply eqb_prop; exact B].
+Qed.
+
+Lemma stub_events_ref p : (p < num_plugins)%N -> stub_events p = ref_mask p /\ new_ok p = ref_new_ok p.
+Proof.
+  intros Hp.
+  exact (ref_ok_elim handler_events p
+           (forallb_in (ref_ok handler_events) (plugins_upto num_plugins) all_plugins_ref_mask p
+                       (in_plugins_upto num_plugins p Hp))).
+Qed.
+
+(* ---- the reference mask, bit by bit: for every table and every plugin type, no sweep ---------- *)
+
+Lemma is_set_set_bit m e e' : (1 <= e)%Z -> (1 <= e')%Z -> is_set (set_bit m e') e = (e =? e')%Z || is_set m e.
+Proof.
+  intros He He'. rewrite !is_set_testbit by exact He. unfold set_bit, bit_of.
+  rewrite Z.shiftl_1_l, Z.lor_spec, Z.pow2_bits_eqb by lia.
+  rewrite orb_comm. f_equal. destruct (Z.eqb_spec e e'), (Z.eqb_spec (e' - 1) (e - 1)); try reflexivity; lia.
+Qed.
+
+Lemma ref_mask_fold (he : list (handler * Z)) p e : forall m,
+  (1 <= e)%Z -> (forall x, In x he -> (1 <= snd x)%Z) ->
+  is_set (fold_left (fun m x => if implements p (fst x) then set_bit m (snd x) else m) he m) e
+  = is_set m e || existsb (fun x => implements p (fst x) && (snd x =? e)%Z) he.
+Proof.
+  induction he as [|x r IH]; intros m He Hx; cbn [fold_left existsb].
+  - rewrite orb_false_r. reflexivity.
+  - rewrite IH by (try exact He; intros y Hy; apply Hx; right; exact Hy).
+    destruct (implements p (fst x)); cbn [andb].
+    + rewrite is_set_set_bit by (try exact He; apply Hx; left; reflexivity).
+      rewrite (Z.eqb_sym e (snd x)). destruct (snd x =? e)%Z, (is_set m e); reflexivity.
+    + reflexivity.
+Qed.
+
+Lemma handler_events_ge1 x : In x handler_events -> (1 <= snd x)%Z.
+Proof.
+  unfold handler_events. intros H. apply in_map_iff in H. destruct H as [h [<- _]]. cbn [snd].
+  pose proof (forallb_in _ _ proto_events_valid h) as V. cbv beta in V.
+  assert (In h all_handlers) as Hin by (destruct h; cbn; tauto). specialize (V Hin).
+  apply andb_true_iff in V. destruct V as [V _]. apply andb_true_iff in V. destruct V as [V _]. lia.
+Qed.
+
+Lemma sub_ok_ref_mask p e :
+  (1 <= e)%Z -> sub_ok handler_events (ref_mask_t handler_events p) p e = true.
+Proof.
+  intros He. unfold sub_ok, ref_mask_t.
+  rewrite (ref_mask_fold handler_events p e 0%Z He handler_events_ge1), is_set_zero. cbn [orb].
+  apply eqb_reflx.
+Qed.
+
+Lemma sub_ok_p p e :
+  (p < num_plugins)%N -> (1 <= e <= 31)%Z -> sub_ok handler_events (stub_events p) p e = true.
+Proof.
+  intros Hp He. destruct (stub_events_ref p Hp) as [E _]. rewrite E. unfold ref_mask.
+  apply sub_ok_ref_mask. lia.
+Qed.
 
 (* what sub_ok says, for an arbitrary mask ev and an arbitrary handler/event table *)
 Lemma sub_ok_spec (he : list (handler * Z)) (ev : Z) p e :
@@ -316,24 +358,6 @@ Proof.
 Qed.
 
 (* ---- the executable predicates of Spec/StubSpec.v hold of the model ------ *)
-
-(* setupHandlers computes the reference mask, for every plugin type (complete sweep) *)
-Lemma all_plugins_ref_mask : forallb (ref_ok handler_events) (plugins_upto num_plugins) = true.
-Proof. vm_cast_no_check (@eq_refl bool true). Qed.
-
-Lemma ref_ok_elim he p : ref_ok he p = true -> stub_events p = ref_mask_t he p /\ new_ok p = ref_new_ok p.
-Proof.
-  unfold ref_ok. intros A. apply andb_true_iff in A. destruct A as [A B].
-  split; [apply Z.eqb_eq; exact A|apply eqb_prop; exact B].
-Qed.
-
-Lemma stub_events_ref p : (p < num_plugins)%N -> stub_events p = ref_mask p /\ new_ok p = ref_new_ok p.
-Proof.
-  intros Hp.
-  exact (ref_ok_elim handler_events p
-           (forallb_in (ref_ok handler_events) (plugins_upto num_plugins) all_plugins_ref_mask p
-                       (in_plugins_upto num_plugins p Hp))).
-Qed.
 
 Lemma holds_cfg_m_configure ev hook : holds_cfg_m ev hook (configure_with ev hook) = true.
 Proof.
